@@ -12,7 +12,7 @@ _ALGS = {"sha1": hashlib.sha1, "sha256": hashlib.sha256, "sha512": hashlib.sha51
 
 
 def ref_hotp(key: bytes, counter: int, alg: str, digits: int) -> str:
-    mac = hmac.new(key, struct.pack(">Q", counter), _ALGS[alg]).digest()
+    mac = hmac.new(key, struct.pack(">Q", counter), _ALGS.get(alg, alg)).digest()  # (other names: whatever hashlib calls so)
     off = mac[-1] & 0x0F
     val = struct.unpack(">I", mac[off:off + 4])[0] & 0x7FFFFFFF
     return str(val % (10 ** digits)).zfill(digits)
